@@ -43,7 +43,7 @@ type lineClient struct {
 }
 
 func dialLine(addr string, wd time.Duration) (*lineClient, error) {
-	c, err := net.DialTimeout("tcp", addr, wd)
+	c, err := sut.DialTCP(addr, wd)
 	if err != nil {
 		return nil, err
 	}
